@@ -1,6 +1,7 @@
 import PyPhysim.Proofs.C19Final
 import PyPhysim.Proofs.C19Sec3
 import PyPhysim.Proofs.C19State
+import PyPhysim.Proofs.C19Robust
 import PyPhysim.Generated.C19Tables
 
 /-!
@@ -385,7 +386,8 @@ variable {α : Type} [Field α] [LinearOrder α] [IsStrictOrderedRing α] [Circ 
 
 /-- **No stale derived state.**  For every cell class (`Cell`, `Cell3Sec` with its three sector
     cells, `CellSquare` with its stored corners) and every history of `pos` / `radius` / `rotation`
-    setter calls (radii positive), the stored state equals the state of a freshly constructed cell
+    setter calls and `move_by_relative_coordinate` / `move_by_relative_polar_coordinate` calls
+    (radii positive), the stored state equals the state of a freshly constructed cell
     with the current position, radius and rotation — which are the values the last setters wrote. -/
 theorem no_stale_state (k : CellKind) (hs : 0 < Circ.sqrt ((2 : ℕ) : α)) (ops : List (CellOp α)) (p : Pt α)
     (R θ : α) (hR : 0 < R) (hok : OpsOk ops) :
@@ -454,6 +456,67 @@ theorem wrap_no_stale_state (k : CellKind) (hs : 0 < Circ.sqrt ((2 : ℕ) : α))
   have h : st = fresh k st.pos st.radius st.rot := (no_stale_state k hs ops p R θ hR hok).1
   rw [← h]
 end state
+
+/-! ## robustness facts that are expressible on the model
+
+The model's functions take logical values (numbers, points, lists) and return values: a result cannot
+depend on the element type or memory layout of an argument and cannot alias an argument or an
+earlier result (R1–R3 are therefore facts about the *tie* and are checked by correspondence /
+oracles).  Stated below: rejected calls (R4), every mutator incl. the `move_by_*` helpers (R7),
+homogeneity in the input scale (R6). -/
+
+section robustness
+variable {α : Type} [Field α] [LinearOrder α] [IsStrictOrderedRing α] [Circ α]
+
+/-- **A rejected call leaves the object as it was** (R4): if `add_user` (point outside), or
+    `add_border_user` (ratio outside `[0,1]`, no border point) raises, the rest of the history runs on
+    the unchanged object — as if the call had never been made. -/
+theorem rejected_call_leaves_object (inside : List (Pt α) → Pt α → Bool) (eps : α) (o : CellObj α)
+    (c : Call α) (cs : List (Call α)) (e : PyErr) (h : callStep inside eps o c = .error e) :
+    callRun inside eps o (c :: cs) = callRun inside eps o cs :=
+  callRun_rejected inside eps o c cs e h
+
+/-- … and the rejections are exactly: a point the containment test refuses, a ratio outside `[0,1]`
+    (or a direction without border point). -/
+theorem rejected_calls_characterised (inside : List (Pt α) → Pt α → Bool) (eps : α) (o : CellObj α) (p : Pt α) :
+    (callStep inside eps o (.addUser p) = .error .ValueError ↔ stInside inside o.st p = false) ∧
+    (∀ op, ∃ o', callStep inside eps o (.set op) = .ok o') ∧
+    (∃ o', callStep inside eps o .deleteUsers = .ok o') := by
+  refine ⟨?_, fun op => ⟨_, rfl⟩, ⟨_, rfl⟩⟩
+  simp only [callStep]
+  cases stInside inside o.st p <;> simp
+
+/-- **Users follow the cell under every kind of move** (R7): `pos = …`,
+    `move_by_relative_coordinate`, `move_by_relative_polar_coordinate` all go through the same
+    position update, after which the stored state is the setter's and every user has kept its
+    position relative to the centre; `radius` / `rotation` setters do not touch the users. -/
+theorem users_follow_every_move (inside : List (Pt α) → Pt α → Bool) (eps : α) (o o' : CellObj α)
+    (op : CellOp α) (h : callStep inside eps o (.set op) = .ok o') :
+    o'.st = step o.st op ∧ o'.users.length = o.users.length ∧
+    (op.isMove = true → ∀ (i : ℕ) (u : Pt α), (o.users[i]? : Option (Pt α)) = some u →
+        ∃ u', o'.users[i]? = some u' ∧ psub u' o'.st.pos = psub u o.st.pos) ∧
+    (op.isMove = false → o'.users = o.users) :=
+  users_follow inside eps o o' op h
+
+/-- the two `move_by_*` helpers are the `pos` setter at the moved position -/
+theorem move_helpers_are_pos_setter (st : CellState α) (d : Pt α) (r a : α) :
+    step st (.moveBy d) = step st (.setPos (padd st.pos d)) ∧
+    step st (.movePolar r a) = step st (.setPos (padd st.pos (smul r (Circ.cisRad a)))) :=
+  ⟨rfl, rfl⟩
+
+/-- **No hidden absolute scale in the border search** (R6): multiplying the polygon (taken relative
+    to the centre) by any `k > 0` multiplies the step to the border by `k`. -/
+theorem border_scale_covariant (k : α) (hk : 0 < k) (rel : List (Pt α)) (d : Pt α) :
+    borderStep (rel.map (smul k)) d = (borderStep rel d).map (fun t => k * t) :=
+  borderStep_scale k hk rel d
+
+/-- **No hidden absolute scale in the rectangle test** (R6): multiplying centre, corners and query
+    point by any `k > 0` does not change the answer. -/
+theorem rect_contains_scale_invariant (k : α) (hk : 0 < k) (r : Rect α) (u p : Pt α) :
+    rectInside { pos := smul k r.pos, lower := smul k r.lower, upper := smul k r.upper } u (smul k p)
+      = rectInside r u p :=
+  rectInside_scale k hk r u p
+end robustness
 
 /-- the hypothesis `0 < sqrt 2` of the state theorems holds for the real scalar -/
 theorem sqrt_two_pos_real : 0 < (Circ.sqrt ((2 : ℕ) : ℝ) : ℝ) := by
